@@ -252,22 +252,22 @@ func (q *Query) Build(extraRounds int) (string, []string) {
 // Ledger entry: one named obligation, possibly with several path instances.
 type LedgerEntry struct {
 	undecidedQs   []*Query // instances on which every solver gave up (retried with a long timeout at the end)
-	alphaOverride []byte // bounded stand-ins: alphabet of the enumeration
+	alphaOverride []byte   // bounded stand-ins: alphabet of the enumeration
 	replayInput   string
-	Name      string   `json:"name"`
-	Kind      string   `json:"kind"`
-	Fn        string   `json:"function"`
-	Instances int      `json:"instances"`
-	Status    string   `json:"status"` // discharged | failed | undecided
-	Solver    string   `json:"solver"`
-	Secs      float64  `json:"solver_seconds"`
-	Trivial   int      `json:"trivial_instances"`
-	Detail    string   `json:"detail,omitempty"`
-	Model     []string `json:"model,omitempty"`
-	Confirmed string   `json:"confirmed_by,omitempty"`
-	Line      int      `json:"line,omitempty"`
-	failQ     *Query
-	failRes   Result
+	Name          string   `json:"name"`
+	Kind          string   `json:"kind"`
+	Fn            string   `json:"function"`
+	Instances     int      `json:"instances"`
+	Status        string   `json:"status"` // discharged | failed | undecided
+	Solver        string   `json:"solver"`
+	Secs          float64  `json:"solver_seconds"`
+	Trivial       int      `json:"trivial_instances"`
+	Detail        string   `json:"detail,omitempty"`
+	Model         []string `json:"model,omitempty"`
+	Confirmed     string   `json:"confirmed_by,omitempty"`
+	Line          int      `json:"line,omitempty"`
+	failQ         *Query
+	failRes       Result
 }
 
 type Ledger struct {
@@ -386,7 +386,9 @@ func hypTiers(hs []*Term, qs []*QFact, goal *Term) [][2]interface{} {
 			break
 		}
 	}
-	special := func(n string) bool { return n == "fold" || n == "absorb" || n == "stackrel" || n == "DVstep" || n == "DVsticky" }
+	special := func(n string) bool {
+		return n == "fold" || n == "absorb" || n == "stackrel" || n == "DVstep" || n == "DVsticky"
+	}
 	hasSpecial, hasDV := false, false
 	for _, q := range qs {
 		if special(q.Name) {
